@@ -20,7 +20,7 @@ def short_path(body, path, maxn=14):
         return ''
     if len(path) > maxn:
         path = path[:maxn // 2] + ['...'] + path[-maxn // 2:]
-    return ' -> '.join(('bb%d@L%s' % (b, body.term(b).get('fln') or body.term(b).get('ln'))) if b != '...' else '...' for b in path)
+    return ' -> '.join(('bb%d@L%s' % (b, body.term(b).get('fln') or body.term(b).get('ln'))) if isinstance(b, int) else str(b) for b in path)
 
 
 # ----------------------------------------------------------------------------- assumptions (CFG pruning)
